@@ -482,6 +482,20 @@ fn credit_menu() -> Vec<(&'static str, Vec<Op>)> {
     ]
 }
 
+/// The waiter's chunk (6) is larger than the whole window (4): it is granted only once nothing
+/// is in flight (the documented exception for oversized chunks).
+fn oversized_menu() -> Vec<(&'static str, Vec<Op>)> {
+    vec![
+        ("ackall", vec![Op::Ack(0, 4)]),
+        ("ack2+ackall", vec![Op::Ack(0, 2), Op::Ack(0, 4)]),
+        ("ack2", vec![Op::Ack(0, 2)]),
+        ("ack3", vec![Op::Ack(0, 3)]),
+        ("cancelx", vec![Op::Cancel("x")]),
+        ("resume4", vec![Op::Resume(0, 4, 0)]),
+        ("advance", vec![Op::Advance(1)]),
+    ]
+}
+
 fn reconnect_menu() -> Vec<(&'static str, Vec<Op>)> {
     vec![
         ("resume2", vec![Op::Resume(0, 2, 0)]),
@@ -504,7 +518,8 @@ pub fn catalogue(thorough: bool) -> Vec<Spec> {
     let mut out = Vec::new();
     let cw = Waiter::Credit { c: 2, timeout_s: FAR };
     let rw = Waiter::Reconnect { timeout_s: FAR };
-    for (kind, w, menu) in [("credit", cw, credit_menu()), ("reconnect", rw, reconnect_menu())] {
+    let ow = Waiter::Credit { c: 6, timeout_s: FAR };
+    for (kind, w, menu) in [("credit", cw, credit_menu()), ("reconnect", rw, reconnect_menu()), ("oversized", ow, oversized_menu())] {
         // singles
         for (n, s) in &menu {
             out.push(Spec {
